@@ -377,11 +377,18 @@ def s_sec_blobs():
 # ------------------------------------------------------------------ (d) construction
 
 
+def _show_int(v):
+    """hex rendering (decimal conversion of integers beyond 4300 digits is refused by the interpreter)"""
+    return "%#x" % v if abs(v) < 2**300 else "%s2**%d+.." % ("-" if v < 0 else "", abs(v).bit_length() - 1)
+
+
 def o_construct(case):
     net = NETS[case["net"]]
     kind = case["kind"]
     if kind == "exponent":
         d = case["d"]
+        if isinstance(d, list):
+            d = d[0] * (d[1] ** d[2] + d[3])
         valid = 1 <= d <= N - 1
         try:
             k = net.keys.private(d, is_compressed=case.get("compressed", True))
@@ -394,8 +401,12 @@ def o_construct(case):
             _bad("exponent:valid-refused", "%s keys.private(%#x) raised %s" % (case["net"], d, err))
         if not valid and err != "InvalidSecretExponentError":
             _bad("exponent:out-of-range-" + ("accepted" if k is not None else "wrong-error"),
-                 "%s keys.private(%d) (outside [1, n-1]) %s; InvalidSecretExponentError is the documented refusal" % (
-                     case["net"], d, "returned a key" if k is not None else "raised " + err))
+                 "%s keys.private(%s) (outside [1, n-1]) %s; InvalidSecretExponentError is the documented refusal" % (
+                     case["net"], _show_int(d), "returned a key" if k is not None else "raised " + err))
+        if abs(d) >= 2**300:
+            # astronomically large integers are only offered as integers (their decimal text is beyond the interpreter's
+            # int-to-str digit limit, and no text form can carry them)
+            return ["exponent:" + ("huge-positive" if d > 0 else "huge-negative")]
         # the same exponent arriving inside a WIF
         if 0 <= d < (1 << 256):
             wif_prefix = _wif_prefix_of_d1(case["net"])
@@ -470,7 +481,10 @@ def o_construct(case):
     return [label]
 
 
-OUT_OF_RANGE = [0, -1, -2, -N, N, N + 1, N + 2, 2 * N, P, 2**256 - 1, 2**256, 2**256 + 1, 2**300]
+# astronomically large values are written [sign, base, exponent, addend] (a case is JSON, and the interpreter refuses to print
+# integers of more than 4300 decimal digits)
+OUT_OF_RANGE = [0, -1, -2, -N, N, N + 1, N + 2, 2 * N, P, 2**256 - 1, 2**256, 2**256 + 1, 2**300, [1, 2, 4096, 0], [1, 10, 4299, 0],
+                [1, 10, 4300, 0], [1, 10, 4301, 7], [-1, 10, 4300, 0], [1, 2, 20000, 1], [-1, 2, 70000, 0]]
 
 
 def cases_construct(tier):
